@@ -22,6 +22,7 @@ import FFVerif.Model.Form
 import FFVerif.Model.Chol
 import FFVerif.Model.Gram
 import FFVerif.Model.Deriv
+import FFVerif.Model.SormPipe
 import FFVerif.Props.C19
 import FFVerif.Props.C20
 import FFVerif.Gen.DiffTables
@@ -246,6 +247,19 @@ def handle (toks : List String) : Option String :=
       (oracle.splitOn "|").mapM (fun lv => (lv.splitOn ";").mapM parseList))
     let r := Subset.pf a b N (Subset.run nc ms (ms + 1) g0 orc)
     some s!"{r.1} {r.2}"
+  | ["sormpipe", n, kinds, p1, p2, rhoZ, xs, as, hx] => do
+    -- the matrix whose eigenvalues are the main curvatures, from the design point x, the gradient a and the Hessian Hx of g there
+    let n ← n.toNat?
+    let p1 ← parseFloatCsv p1
+    let p2 ← parseFloatCsv p2
+    let margs ← parseMargs kinds p1 p2
+    let rz ← parseFloatCsv rhoZ
+    let xs ← parseFloatCsv xs
+    let as ← parseFloatCsv as
+    let hx ← parseFloatCsv hx
+    let T := natafModel n margs (matOf rz 0 n)
+    let r := SormPipe.curvatureBlock T (vecOf xs 0) (vecOf as 0) (matOf hx 0 n)
+    some s!"{showFloats [r.gradNorm]} {showFloats r.block.flatten}"
   | ["deriv", n, m, coeffs, x0, dx] => do
     -- the hard-coded stencil (n, m) of the regenerated tables on the polynomial with the given coefficients (constant term first)
     let n ← n.toNat?
